@@ -226,3 +226,102 @@ def block_loop_rule(rule, w, modules=("misc", "coneprog", "cvxprog")):
                     n += 1
                     rule.ok("%s.%s:block order `%s` taken inside the loop at line +%d" % (mn, q, a.targets[0].id, lp.lineno - fn.lineno), m.where(a, fn))
     return n
+
+
+def objective_contribution_rule(rule, w, sites=(("coneprog", "coneqp"),), buf="rx", obj_call="xdot"):
+    """coneqp evaluates the primal objective as 0.5*(x'rx + x'q) while `rx` holds q + P*x, before
+    A'y and G'z are accumulated into it.  At every statement that reads `xdot(x, rx)` for the
+    objective, the calls that have written `rx` since it was last overwritten (`xcopy(q, rx)`)
+    are the same at all sites - an accumulation moved in front of the read changes the reported
+    objective but neither x nor the residuals."""
+    n = 0
+    for mn, fq in sites:
+        m = w.mods[mn]
+        fn = m.funcs.get(fq)
+        if fn is None:
+            continue
+        found = []
+        for blk in _blocks_of(fn):
+            for i, st in enumerate(blk):
+                if not (isinstance(st, ast.Assign) and any(isinstance(x, ast.Call) and pf.norm_expr(x.func) == obj_call and len(x.args) == 2
+                                                          and pf.norm_expr(x.args[1]) == buf and pf.norm_expr(x.args[0]) != buf
+                                                          for x in ast.walk(st.value))):
+                    continue
+                contrib = []
+                for prev in reversed(blk[:i]):
+                    # `rx = xnewcopy(q)` / `xcopy(q, rx)`: rx is overwritten with q
+                    if isinstance(prev, ast.Assign) and len(prev.targets) == 1 and pf.norm_expr(prev.targets[0]) == buf and isinstance(prev.value, ast.Call) \
+                            and prev.value.args:
+                        contrib.append("copy(%s)" % pf.norm_expr(prev.value.args[0]))
+                        break
+                    if not (isinstance(prev, ast.Expr) and isinstance(prev.value, ast.Call)):
+                        continue
+                    c = prev.value
+                    if len(c.args) >= 2 and pf.norm_expr(c.args[1]) == buf:
+                        if pf.norm_expr(c.func) in ("xcopy", "blas.copy"):
+                            contrib.append("copy(%s)" % pf.norm_expr(c.args[0]))
+                            break
+                        contrib.append(pf.norm_expr(c.func))
+                found.append((st, list(reversed(contrib))))
+        ref = None
+        for st, contrib in sorted(found, key=lambda t_: -t_[0].lineno):
+            n += 1
+            key = "%s.%s:objective at line +%d read from %s = %s" % (mn, fq, st.lineno - fn.lineno, buf, " + ".join(contrib) or "?")
+            if ref is None:
+                ref = contrib              # the main-loop site (last in the source) is the reference
+                rule.ok(key, m.where(st, fn), "reference site")
+            elif contrib == ref:
+                rule.ok(key, m.where(st, fn))
+            else:
+                rule.violation(key, m.where(st, fn),
+                               "`%s` has been written by %s when the objective is read here, but by %s at the main-loop site: the objective reported "
+                               "on this path includes a term it should not" % (buf, contrib, ref), ref, contrib)
+    return n
+
+
+def _blocks_of(fn):
+    out = []
+
+    def walk(stmts):
+        out.append(stmts)
+        for s in stmts:
+            if isinstance(s, (ast.FunctionDef, ast.ClassDef)):
+                continue
+            for f in ("body", "orelse", "finalbody"):
+                b = getattr(s, f, None)
+                if isinstance(b, list) and b:
+                    walk(b)
+            if isinstance(s, ast.Try):
+                for h in s.handlers:
+                    walk(h.body)
+    walk(fn.body)
+    return out
+
+
+def loop_bound_domain_rule(rule, w, functions=(("modeling", "constraint._aslinearineq"), ("modeling", "op._inmatrixform"))):
+    """In the epigraph expansion every `for k in range(len(X))` loop that subscripts sequences
+    with k subscripts X itself: the bound belongs to the sequence whose pieces the loop visits."""
+    n = 0
+    for mn, fq in functions:
+        m = w.mods[mn]
+        fn = m.funcs.get(fq)
+        if fn is None:
+            continue
+        for lp in [x for x in pf._scope_nodes(fn) if isinstance(x, ast.For)]:
+            it = lp.iter
+            if not (isinstance(it, ast.Call) and isinstance(it.func, ast.Name) and it.func.id == "range" and len(it.args) == 1
+                    and isinstance(it.args[0], ast.Call) and pf.norm_expr(it.args[0].func) == "len" and isinstance(lp.target, ast.Name)):
+                continue
+            X, k = pf.norm_expr(it.args[0].args[0]), lp.target.id
+            idx = {pf.norm_expr(s.value) for s in ast.walk(lp) if isinstance(s, ast.Subscript) and isinstance(s.slice, ast.Name) and s.slice.id == k}
+            if not idx:
+                continue
+            n += 1
+            key = "%s.%s:loop `for %s in range(len(%s))` at line +%d subscripts %s" % (mn, fq, k, X, lp.lineno - fn.lineno, X)
+            if X in idx:
+                rule.ok(key, m.where(lp, fn), sorted(idx))
+            else:
+                rule.violation(key, m.where(lp, fn),
+                               "the loop runs over the length of `%s` but subscripts %s with its index: pieces beyond len(%s) are never visited (or the "
+                               "index runs past the end)" % (X, ", ".join(sorted(idx)), X), "range(len(%s))" % sorted(idx)[0], "range(len(%s))" % X)
+    return n
